@@ -2,26 +2,30 @@ package main
 
 import (
 	"fmt"
+	"reflect"
 
-	"github.com/segmentio/encoding/proto"
+	"github.com/segmentio/encoding/thrift"
+	"verifharness/core"
+	"verifharness/gen/ttypes"
 )
 
-type PetOwner struct {
-	Pet *Pet
-	N   int32
+type inner struct {
+	X int64  `thrift:"1"`
+	W string `thrift:"5,required"`
 }
-type Pet struct {
-	Owner PetOwner
-	S     string
-	Rest  map[int32]*Pet
+type EmbUnexp struct {
+	inner
+	Y string `thrift:"2"`
 }
 
 func main() {
-	v := PetOwner{Pet: &Pet{Owner: PetOwner{N: 5}, S: "lo", Rest: map[int32]*Pet{3: {S: "x", Owner: PetOwner{N: 9}}}}, N: 7}
-	b, err := proto.Marshal(v)
-	fmt.Printf("% x %v size=%d\n", b, err, proto.Size(v))
-	var out PetOwner
-	err = proto.Unmarshal(b, &out)
-	fmt.Printf("%v %+v %+v\n", err, out, out.Pet)
-	// first use through Pet
+	f := &ttypes.Filler{R: core.NewRand(3)}
+	t := reflect.TypeOf(EmbUnexp{})
+	v := f.NewValue(t)
+	fmt.Printf("%+v\n", v.Interface())
+	b, err := thrift.Marshal(&thrift.CompactProtocol{}, v.Interface())
+	fmt.Printf("% x %v\n", b, err)
+	out := reflect.New(t)
+	err = thrift.Unmarshal(&thrift.CompactProtocol{}, b, out.Interface())
+	fmt.Printf("%+v %v\n", out.Elem().Interface(), err)
 }
